@@ -167,6 +167,8 @@ class Report(object):
             fresh = order
             d = os.path.join(REPLAY_DIR, self.pid)
             os.makedirs(d, exist_ok=True)
+            with open(os.path.join(d, '%s-all.json' % self.tier), 'w') as f:
+                f.write(dumps([dict(v) for v in fresh], indent=1))
             for n, v in enumerate(fresh[:20]):
                 p = os.path.join(d, '%s-%03d.json' % (self.tier, n))
                 with open(p, 'w') as f:
